@@ -27,6 +27,7 @@ type FieldCase struct {
 	Keys    []string      // KMStruct keys
 	Path    string        // dotted path of the setting
 	Null0   bool          // list kinds of numbers: the first element of the input is null
+	PreVar  int           // pre-filled value: 0 the usual one, 1 the zero value, 2 a negative one
 }
 
 // StructCase is the plan for a struct value.
@@ -83,6 +84,16 @@ func (g *gen) genStruct(depth int) *Struct {
 		if k <= KStr && t.Chance(1, 5, "required") {
 			f.Required = true
 		}
+		if boundable(k) && t.Chance(1, 3, "built-in-validator") {
+			switch {
+			case k == KDur || k == KPDur:
+				f.Bound = []string{"min=8s", "max=30s", "nonzero", "positive", "min=7.5", "max=1m"}[t.Choose(6, "bound")]
+			case k == KStr || k == KPStr:
+				f.Bound = "nonzero"
+			default:
+				f.Bound = []string{"min=8", "max=50", "nonzero", "positive"}[t.Choose(4, "bound")]
+			}
+		}
 		s.Fields = append(s.Fields, f)
 	}
 	s.build()
@@ -98,6 +109,9 @@ func (g *gen) genCase(s *Struct, path string, depth int) *StructCase {
 		fc.Pre = t.Chance(1, 2, "prefill")
 		fc.Mention = f.Required || t.Chance(2, 3, "mention")
 		fc.Path = join(path, f.Name)
+		if boundable(f.Kind) && !f.Required {
+			fc.PreVar = t.Weighted([]int{4, 1, 1}, "prefill-variant")
+		}
 		switch f.Kind {
 		case KInline:
 			fc.Path = path
@@ -173,7 +187,7 @@ func (fc *FieldCase) input() interface{} {
 		return "s" + itoa(n)
 	case KBool, KUBool:
 		return n%2 == 0
-	case KDur:
+	case KDur, KPDur:
 		return itoa(1+n%50) + "s"
 	case KUAny:
 		return "u" + itoa(n)
@@ -241,6 +255,15 @@ func (fc *FieldCase) input() interface{} {
 // ---------------------------------------------------------------------------------------------
 // Pre-filled targets and expected results, both pure functions of the plan.
 
+// boundable: kinds whose fields may carry a built-in validator with a value-level meaning.
+func boundable(k Kind) bool {
+	switch k {
+	case KInt, KInt8, KUint16, KF64, KF32, KStr, KDur, KPInt, KPStr, KVInt, KPI, KPDur:
+		return true
+	}
+	return false
+}
+
 func intp(i int) *int       { return &i }
 func strp(s string) *string { return &s }
 
@@ -271,25 +294,31 @@ func (sc *StructCase) prefill(v reflect.Value) {
 		if !fc.Pre {
 			continue
 		}
+		// the pre-filled number: 5, or the zero value, or -5
+		num := []int64{5, 0, -5}[fc.PreVar]
+		str := []string{"old", "", "old"}[fc.PreVar]
 		switch fc.F.Kind {
 		case KInt, KInt8:
-			f.SetInt(5)
+			f.SetInt(num)
 		case KUint16:
-			f.SetUint(5)
+			f.SetUint(uint64([]int64{5, 0, 5}[fc.PreVar]))
 		case KF64, KF32:
-			f.SetFloat(5.5)
+			f.SetFloat([]float64{5.5, 0, -5.5}[fc.PreVar])
 		case KStr:
-			f.SetString("old")
+			f.SetString(str)
 		case KBool:
 			f.SetBool(true)
 		case KDur:
-			f.SetInt(int64(5 * time.Hour))
+			f.SetInt(num * int64(time.Hour))
+		case KPDur:
+			d := time.Duration(num) * time.Hour
+			f.Set(reflect.ValueOf(&d))
 		case KPInt:
-			f.Set(reflect.ValueOf(intp(5)))
+			f.Set(reflect.ValueOf(intp(int(num))))
 		case KPStr:
-			f.Set(reflect.ValueOf(strp("old")))
+			f.Set(reflect.ValueOf(strp(str)))
 		case KVInt:
-			f.SetInt(5)
+			f.SetInt(num)
 		case KVStr:
 			f.SetString("old")
 		case KUStr:
@@ -444,6 +473,9 @@ func (sc *StructCase) apply(v reflect.Value, present bool) {
 		case KDur:
 			d, _ := time.ParseDuration(in.(string))
 			f.SetInt(int64(d))
+		case KPDur:
+			d, _ := time.ParseDuration(in.(string))
+			f.Set(reflect.ValueOf(&d))
 		case KPInt:
 			f.Set(reflect.ValueOf(intp(int(in.(uint64)))))
 		case KPStr:
